@@ -438,6 +438,8 @@ def build_program_cases(seed, i, tier):
                 own.remove(e)
                 own.append(e)
             item_order[str(m)] = own
+            if rng.random() < 0.25:
+                item_order.setdefault("late_imports", {})[str(m)] = rng.randint(1, 2)
         files = pngen.ordered_file_map(sp, item_order)
         structure = pngen.split_to_json(sp, item_order)
         structure["extra_files"] = {}
